@@ -712,6 +712,7 @@ Definition crule_holds (g : dg) (c : crule) : Prop :=
   | CB b => cond b g
   | CU _ (UConst o) => rejects o = false
   | CU _ (UEdgesLe k fail) => length (edge_pairs g) <= k \/ rejects fail = false
+  | CU _ (UNodesLe k fail) => length g <= k \/ rejects fail = false
   | CU _ (UNested bs) => forall b, In b bs -> cond b g
   end.
 
@@ -745,10 +746,11 @@ Qed.
 
 Lemma o_rule_holds_iff : forall g c, wf g -> (o_rule_holds (mk_roracle g) c = true <-> crule_holds g c).
 Proof.
-  intros g c Hwf. destruct c as [b|native [o|k fail|bs]]; cbn [o_rule_holds crule_holds].
+  intros g c Hwf. destruct c as [b|native [o|k fail|k fail|bs]]; cbn [o_rule_holds crule_holds].
   - apply o_cond_iff. exact Hwf.
   - apply negb_true_iff.
   - rewrite orb_true_iff, negb_true_iff, Nat.leb_le, o_edge_count_eq. reflexivity.
+  - rewrite orb_true_iff, negb_true_iff, Nat.leb_le. reflexivity.
   - rewrite forallb_forall. split; intros H b Hb; apply (o_cond_iff g b Hwf); apply H; exact Hb.
 Qed.
 
@@ -892,4 +894,36 @@ Proof.
   destruct native.
   - destruct ad; exact (K true).
   - destruct ad; [exact (K true)|exact (K false)|exact I].
+Qed.
+
+(* ======================================================================================== *)
+(* Part F - a verifier instance is stateless                                                 *)
+(* ======================================================================================== *)
+(* the verdict of the k-th call on an instance is the verdict of a fresh verifier on that graph
+   alone: it does not depend on the graphs verified before (nor after), and the instance is
+   unchanged by a call *)
+Theorem call_keeps_instance : forall {D} (v : verifier D) g, fst (call v g) = v.
+Proof. reflexivity. Qed.
+
+Theorem verify_is_stateless : forall {D} (v : verifier D) gs,
+  call_seq v gs = map (verify (v_restore v) (v_raise v) (v_rules v)) gs /\
+  (forall k g, nth_error gs k = Some g ->
+               nth_error (call_seq v gs) k = Some (verify (v_restore v) (v_raise v) (v_rules v) g)).
+Proof.
+  intros D v gs.
+  assert (E : call_seq v gs = map (verify (v_restore v) (v_raise v) (v_rules v)) gs).
+  { induction gs as [|g r IH]; [reflexivity|]. cbn [call_seq call fst snd map]. rewrite IH. reflexivity. }
+  split; [exact E|]. intros k g H. rewrite E. apply map_nth_error. exact H.
+Qed.
+
+(* consequently the verdict for a graph is the same wherever it stands in a sequence *)
+Corollary verify_order_irrelevant : forall {D} (v : verifier D) pre pre' g post post',
+  nth_error (call_seq v (pre ++ g :: post)) (length pre) =
+  nth_error (call_seq v (pre' ++ g :: post')) (length pre').
+Proof.
+  intros D v pre pre' g post post'.
+  destruct (verify_is_stateless v (pre ++ g :: post)) as [_ H1].
+  destruct (verify_is_stateless v (pre' ++ g :: post')) as [_ H2].
+  rewrite (H1 (length pre) g), (H2 (length pre') g); [reflexivity| |];
+    rewrite nth_error_app2, Nat.sub_diag by lia; reflexivity.
 Qed.
